@@ -23,9 +23,10 @@ Notation run := (run ieqb teqb lower).
 
 (* the plain calls of a history with iterators *)
 Definition plain (hops : list (hop T)) : list (op T) :=
-  flat_map (fun h => match h with HOp o => [o] | _ => [] end) hops.
+  flat_map (fun h => match h with HOp o => [o] | HIAdd i j => [OAdd i j] | _ => [] end) hops.
 
-Definition is_plain (h : hop T) : bool := match h with HOp _ => true | _ => false end.
+(* round 7: `acc = store[i]; acc += store[j]` counts as the plain call store[i] + store[j] *)
+Definition is_plain (h : hop T) : bool := match h with HOp _ | HIAdd _ _ => true | _ => false end.
 (* the in-place mutations by the caller (round 3) *)
 Definition mutates (h : hop T) : bool :=
   match h with HRename _ _ _ | HSetAliases _ _ _ | HInsertFrom _ _ _ _ | HDelAt _ _ => true | _ => false end.
@@ -66,10 +67,15 @@ Lemma hstep_plain (st : list schema) (its : iters T) (o : op T) :
   hstep (st, its) (HOp o) = ((fst (step st o), its), snd (step st o)).
 Proof. simpl. destruct (step st o) as (st', x). reflexivity. Qed.
 
+(* round 7: the augmented assignment is the plain sum, as a step *)
+Lemma hstep_iadd (sti : list schema * iters T) (i j : nat) :
+  hstep sti (HIAdd i j) = hstep sti (HOp (OAdd i j)).
+Proof. destruct sti as (st, its). reflexivity. Qed.
+
 Lemma hstep_iter_store (st : list schema) (its : iters T) (h : hop T) :
   is_plain h = false -> mutates h = false -> fst (fst (hstep (st, its) h)) = st.
 Proof.
-  destruct h as [o|i|k|i ci keys|i q n|i q al|i p j q|i p]; simpl; try discriminate; intros _ _.
+  destruct h as [o|i|k|i ci keys|i q n|i q al|i p j q|i p|i j]; simpl; try discriminate; intros _ _.
   - destruct (nth_error st i); reflexivity.
   - destruct (nth_error its k) as [[|n r]|]; reflexivity.
   - destruct (nth_error st i); reflexivity.
@@ -85,13 +91,16 @@ Proof.
   induction hops as [|h hops IH]; intros st its Hm; [split; reflexivity|].
   cbn [forallb] in Hm. apply andb_true_iff in Hm. destruct Hm as (Hh & Hm). apply negb_true_iff in Hh.
   destruct (is_plain h) eqn:Ep.
-  - destruct h as [o| | | | | | |]; try discriminate.
-    cbn [C17.hrun plain flat_map app C17.run]. rewrite hstep_plain.
+  - assert (Ho : exists o, hstep (st, its) h = hstep (st, its) (HOp o) /\ plain (h :: hops) = o :: plain hops).
+    { destruct h as [o| | | | | | | |i j]; try discriminate.
+      - exists o. split; reflexivity.
+      - exists (OAdd i j). split; reflexivity. }
+    destruct Ho as (o & Eo & Epl). rewrite Epl. cbn [C17.hrun C17.run]. rewrite Eo, hstep_plain.
     destruct (step st o) as (st1, x) eqn:Es. cbn [fst snd].
-    fold (plain hops). pose proof (IH st1 its Hm) as (IH1 & IH2).
+    pose proof (IH st1 its Hm) as (IH1 & IH2).
     unfold store in *. destruct (hrun (st1, its) hops) as (sti2, xs) eqn:Eh.
     destruct (run st1 (plain hops)) as (st2, ys) eqn:Er.
-    cbn [fst snd select is_plain] in *. split; [exact IH1|]. rewrite IH2. reflexivity.
+    cbn [fst snd select] in *. rewrite Ep. split; [exact IH1|]. rewrite IH2. reflexivity.
   - assert (Epl : plain (h :: hops) = plain hops) by (destruct h; try discriminate; reflexivity).
     rewrite Epl. cbn [C17.hrun].
     destruct (hstep (st, its) h) as (sti1, x) eqn:Es.
@@ -114,9 +123,10 @@ Lemma hstep_iterator (st : list schema) (its : iters T) (h : hop T) (k : nat) (l
   else nth_error (snd (fst (hstep (st, its) h))) k = Some l.
 Proof.
   intros Hk. assert (Hlt : k < length its) by (apply nth_error_Some; rewrite Hk; discriminate).
-  destruct h as [o|i|j|i ci keys|i q n|i q al|i p j q|i p]; cbn [is_next];
+  destruct h as [o|i|j|i ci keys|i q n|i q al|i p j q|i p|i j]; cbn [is_next];
     [ | | | simpl; unfold C17.with_col;
-            repeat match goal with |- context [match ?x with _ => _ end] => destruct x end; exact Hk .. ].
+            repeat match goal with |- context [match ?x with _ => _ end] => destruct x end; exact Hk .. | ];
+    [ | | | rewrite hstep_iadd, hstep_plain; exact Hk ].
   - rewrite hstep_plain. exact Hk.
   - simpl. destruct (nth_error st i); simpl; [|exact Hk]. rewrite nth_error_app1; assumption.
   - destruct (Nat.eqb j k) eqn:E.
